@@ -55,6 +55,12 @@ def Iter1.drain (it : Iter1 α) : List Bool → List (Option α)
   | false :: r => let (v, it') := it.next; v :: Iter1.drain it' r
   | true :: r => let (v, it') := it.nextBack; v :: Iter1.drain it' r
 
+/-- `len()` reported after each pull of a script (front `false` / back `true`) -/
+def Iter1.drainLens (it : Iter1 α) : List Bool → List Nat
+  | [] => []
+  | false :: r => let it' := it.next.2; it'.len :: Iter1.drainLens it' r
+  | true :: r => let it' := it.nextBack.2; it'.len :: Iter1.drainLens it' r
+
 /-- `math::lerp` -/
 def lerp (a b t : α) : α := a * ((1.0 : α) - t) + b * t
 
@@ -108,6 +114,11 @@ def Iter2.drain (it : Iter2 α) : List Bool → List (Option (α × α))
   | [] => []
   | false :: r => let (v, it') := it.next; v :: Iter2.drain it' r
   | true :: r => let (v, it') := it.nextBack; v :: Iter2.drain it' r
+
+def Iter2.drainLens (it : Iter2 α) : List Bool → List Nat
+  | [] => []
+  | false :: r => let it' := it.next.2; it'.len :: Iter2.drainLens it' r
+  | true :: r => let it' := it.nextBack.2; it'.len :: Iter2.drainLens it' r
 
 /-! ### rayon producers -/
 
